@@ -133,8 +133,10 @@ fn durations() -> Vec<Duration> {
     ]
 }
 
-const PATHS: [&str; 13] = ["p", "a b", "a,b", "a: b", "a}b", "é", "/tmp/x y/z", "null", "true", "123", "~", "rel/ok.flag", "-"];
-pub const ENV_VALUES: [&str; 17] = ["bar", "q\"uote", "back\\slash", "a: b", "{x}", "a,b", "#c", " lead", "trail ", "'s'", "ü", "", "true", "null", "1", "a #b", "x\\\"y"];
+const PATHS: [&str; 15] = ["p", "a b", "a,b", "a: b", "a}b", "é", "/tmp/x y/z", "null", "true", "123", "~", "rel/ok.flag", "-", "/tmp/`x`", "/tmp/a\u{85}b"];
+pub const ENV_VALUES: [&str; 24] = ["bar", "q\"uote", "back\\slash", "a: b", "{x}", "a,b", "#c", " lead", "trail ", "'s'", "ü", "", "true", "null", "1", "a #b", "x\\\"y",
+    // characters that YAML does not allow raw in a double-quoted scalar or folds, and the one that cannot stand on a fence line
+    "a\u{7f}b", "a\u{85}b", "a \u{2028} b", "a\u{9f}b", "a\u{fffe}b", "a`b", "tab\there"];
 
 fn waits() -> Vec<TestCaseWait> {
     let mut v = vec![TestCaseWait { timeout: Duration::from_secs(1), path: None }, TestCaseWait { timeout: Duration::from_secs(90), path: None }];
